@@ -776,3 +776,52 @@ def check(cx):
             cx.verdict(good, r12, "and-arm:both-sides", fq.where(), "true only after both sides were asked",
                        "is_equi_condition answers true for `a AND b` although %s: ON a.x = b.y AND a.z < b.w is planned as a hash/merge join on "
                        "(x, y) and the second conjunct is never evaluated" % why)
+
+    # ---- C05.13 a group exists only because an input row belongs to it -----------------------------------------------------------------
+    r13 = cx.rule("C05.13", "MPR: in the aggregate executor a group (GroupBucket / Accumulator) is created either for an input row - in a "
+                  "function that is handed the row - or, without any row, only under the test that there is no GROUP BY (the one default "
+                  "row of a scalar aggregate); a grouped aggregate over an empty input has no groups and returns no row", floor=2)
+    AGG = "runtime::ops::aggregate::"
+    ctor = {AGG + "Accumulator::new", AGG + "GroupBucket::new"}
+    n13 = 0
+    for g in K.each_fn(p):
+        root = g.root or g.id
+        if not (root.startswith(AGG + "HashAggregate") or root.startswith("<" + AGG + "HashAggregate")):
+            continue
+        sites13 = [c for c in g.calls() if c.callee in ctor]
+        if not sites13:
+            continue
+        rootf = p.raw_fns.get(root)
+        per_row = rootf is not None and any("storage::tuple::Row" in rootf.locals[i] for i in range(1, rootf.nargs + 1))
+        for c in sites13:
+            n13 += 1
+            if per_row:
+                cx.ok(r13, "%s#%d" % (root.rsplit("::", 1)[-1], n13), c.where(), "created for the input row handed to %s" % root.rsplit("::", 1)[-1])
+                continue
+            # gates: branches on `self.group_by.is_empty()` / `.len() == 0`
+            gated = False
+            for bi, b in enumerate(g.blocks):
+                t = b["term"]
+                if t["t"] != "switch" or t.get("ty") != "bool" or op_local(t["o"]) is None or not g.dominates(bi, c.bb) or bi == c.bb:
+                    continue
+                prod = [x for x in g.calls() if x.dst and x.dst[0] in (g.provenance_locals(op_local(t["o"])) | {op_local(t["o"])})
+                        and x.callee.rsplit("::", 1)[-1] in ("is_empty", "len")]
+                def reads_gb(l):
+                    ls = g.provenance_locals(l) | {l}
+                    for bb_ in g.blocks:
+                        for st in bb_["stmts"]:
+                            if st["dst"][0] in ls:
+                                pls = [st["rv"].get("p") or []] + [(o.get("c") or o.get("m") or []) for o in (st["rv"].get("o") or [])
+                                                                   if isinstance(st["rv"].get("o"), list) and isinstance(o, dict)]
+                                if any(isinstance(pe, str) and pe.startswith(".group_by:") for pl in pls for pe in pl[1:]):
+                                    return True
+                    return False
+                on_group_by = any(x.args and op_local(x.args[0]) is not None and reads_gb(op_local(x.args[0])) for x in prod)
+                if not on_group_by:
+                    continue
+                zero = [tg for v, tg in t["targets"] if v == 0]
+                if zero and c.bb not in g.reachable(zero[0], blocked={bi}):
+                    gated = True
+            cx.verdict(gated, r13, "%s#%d" % (root.rsplit("::", 1)[-1], n13), c.where(), "created without a row only when there is no GROUP BY",
+                       "%s creates a group without an input row and without asking whether the statement has a GROUP BY: a grouped "
+                       "aggregate over an empty (or fully filtered) input returns one row of defaults instead of none" % root.rsplit("::", 1)[-1])
